@@ -9,6 +9,7 @@ from .. import templates as T
 from ..core import Repo
 from ..report import Finding, RuleResult
 from . import c01, c07, c08
+from . import _c08_util as U
 
 EXPLANATION = (
     "C09.fields: backward slices show that the problem text depends on every field of Problem that the property names (name, domain "
@@ -39,31 +40,53 @@ ELEMENT_TABLE = [
 ]
 
 
+def _element_path(x: tuple) -> tuple:
+    """the value of a (key, value) pair of `d.items()` is the element of `d.values()`, the second component of an `enumerate` pair
+    is the element itself: the element of the walked collection, whichever iteration protocol is used"""
+    out = list(x)
+    i = 0
+    while i + 2 < len(out) + 0:
+        if out[i] == "call:items" and out[i + 1] == "elem" and i + 2 < len(out) and out[i + 2] in ("unpack:1", "item:1"):
+            out[i:i + 3] = ["call:values", "elem"]
+        elif out[i] == "arg0:enumerate" and out[i + 1] == "elem" and i + 2 < len(out) and out[i + 2] in ("unpack:1", "item:1"):
+            out[i:i + 3] = ["elem"]
+        i += 1
+    return tuple(out)
+
+
 def rule_elements(repo: Repo, rid: str = "C09.elements") -> RuleResult:
     from .. import fields as F
     from ..core import AnalysisError
     r = RuleResult(rid, "the line written for each object / fact / fluent depends on every field of it that the reader needs",
                    "objects with their types, ground atoms and fluent values (with repeated arguments) are preserved by the round trip")
     for spec, marker, depth, cls, required in ELEMENT_TABLE:
-        f = L.fn(repo, spec)
+        f = U.fn(repo, spec)
         p = L.prov(repo, f)
         r.site(f"{f.qn} [{cls}]")
         names = set()
+        keys_only = False
         for n in ast.walk(f.node):
             if isinstance(n, ast.Name) and isinstance(n.ctx, ast.Load) and n.id not in names:
                 try:
                     tr = p.trace(n)
                 except KeyError:
                     continue
-                for x in tr:
+                for x in map(_element_path, tr):
+                    if x[0].startswith("param:") and marker in x[0] and (x[1:] in (("call:items", "elem", "unpack:0"), ("call:keys", "elem"), ("elem",))):
+                        keys_only = True
                     tail = [s_ for s_ in x if s_ == "elem"]
                     if x[-1] == "elem" and len(tail) == depth and any(marker in s_ for s_ in x[:-depth]) and not any(s_.startswith(("arg", "in:", "kw:")) for s_ in x):
                         names.add(n.id)
         if not names:
+            if keys_only:
+                # the collection is walked, but only its keys are looked at: the objects themselves are not printed at all
+                r.fail(Finding(rid, f, f"element-field-not-printed:{cls}:{'/'.join(sorted(required))}",
+                               f"{spec} walks over the keys of the {marker} collection only: the text does not depend on the {cls} objects"))
+                continue
             raise AnalysisError(f"{spec}: the elements of the {marker} collection are not walked over by a name the analysis can follow")
         got = set()
         for nm in sorted(names):
-            got |= F.slice_fields(repo, f, nm, cls, control=False) | (F.slice_fields(repo, f, nm, cls) & c08.CONTROL_OK)
+            got |= U.slice_fields(repo, f, nm, cls, control=False) | (U.slice_fields(repo, f, nm, cls) & c08.CONTROL_OK)
         missing = sorted(required - got)
         if missing:
             r.fail(Finding(rid, f, f"element-field-not-printed:{cls}:{'/'.join(missing)}",
@@ -79,9 +102,9 @@ def rule_objecttext(repo: Repo, rid: str = "C09.objecttext") -> RuleResult:
     from ..core import AnalysisError
     r = RuleResult(rid, "an object is written as '<name> - <type>' on every alternative",
                    "typed lists are grouped: an object without '- type' takes the type of the next typed object")
-    f = L.fn(repo, "PDDLObject.__str__")
+    f = U.fn(repo, "PDDLObject.__str__")
     p = L.prov(repo, f)
-    ev = S.Evaluator(repo, f)
+    ev = U.Evaluator(repo, f)
     r.site(f.qn)
 
     def namer(n):
@@ -121,8 +144,8 @@ def rule_keywords(repo: Repo) -> RuleResult:
     heads = c08.parser_heads(repo, ["ProblemParser.parse_problem", "ProblemParser.parse_goal_state", "ProblemParser.parse_state_component"])
     heads |= {"define"}
     for w in ("ProblemExporter.extract_problem", "ProblemExporter.write_objects", "ProblemExporter.write_initial_state", "ProblemExporter.write_goal_state"):
-        f = L.fn(repo, w)
-        kw = {k for k in T.keywords(c08._fn_literals(repo, f))}
+        f = U.fn(repo, w)
+        kw = {k for k in T.keywords(c08._text_literals(repo, f))}
         r.site(f.qn)
         unknown = sorted(k for k in kw if k not in heads)
         if unknown:
@@ -137,10 +160,10 @@ def rule_domain_name(repo: Repo) -> RuleResult:
     from .. import strshape as S
     from ..core import AnalysisError
     r = RuleResult("C09.domainref", "the (:domain ...) reference is the name of the problem's domain", "parsing against the same domain succeeds")
-    f = L.fn(repo, "ProblemExporter.extract_problem")
+    f = U.fn(repo, "ProblemExporter.extract_problem")
     p = L.prov(repo, f)
     r.site(f.qn)
-    ev = S.Evaluator(repo, f)
+    ev = U.Evaluator(repo, f)
 
     def hole(n):
         try:
@@ -177,8 +200,8 @@ def rule_goalform(repo: Repo) -> RuleResult:
     from ..core import AnalysisError
     r = RuleResult("C09.goalform", "every text the goal writer returns is (:goal (and ...)) -- the only form parse_goal_state reads",
                    "the exported problem parses back: goal literals and numeric goal conditions")
-    f = L.fn(repo, "ProblemExporter.write_goal_state")
-    ev = S.Evaluator(repo, f)
+    f = U.fn(repo, "ProblemExporter.write_goal_state")
+    ev = U.Evaluator(repo, f)
     rets = [x for x in L.func_returns(f) if x.value is not None]
     if not rets:
         raise AnalysisError("ProblemExporter.write_goal_state: no returned text")
